@@ -21,7 +21,8 @@ TEXT = ("Must-pass-through (taint) analysis over every raw storage reader of the
         "malformed stored item must be skipped or reported, not abort the thread; the same for every fallible text / number "
         "conversion of a non-constant value), loops over storage listings are entered whenever the listing is non-empty (H6b), "
         "and no overflow-checked arithmetic is applied to an identifier index on those paths (H8). Decides that no path interprets unverified bytes; does not decide "
-        "equality of the surviving state with the state of the intact subset (history-level).")
+        "equality of the surviving state with the state of the intact subset (history-level)."
+        " H9: in read, the Result of every load of a stored object is propagated, returned or unwrapped (a match counts only if its Err side acts).")
 TECHNIQUE = 'static analysis over rustc MIR: must-pass-through (taint) from raw reads to parsers through a digest-match edge, dominance of shape tests over unwraps of stored content, overflow-assert enumeration on identifier indices, listing-loop entry/exit discipline'
 TRUSTED = ["rustc nightly MIR and callee resolution", "sha2/hex compute SHA-256", "serde_json parses only what it is given",
            "backends return the stored bytes (C17)"]
